@@ -342,3 +342,23 @@ def last_field(path):
 
 def fields_of(path):
     return [c for c in path.split('.') if c and not c.endswith('()')]
+
+
+def guard_vars(f):
+    """local scope_guard variables of function f: {var: lambda line}; recognises `scope_guard g = [..]{}`,
+    `scope_guard g{[..]{}}` and `auto g = scope_guard{[..]{}}`"""
+    out = {}
+    sg_lines = set()
+    for b, i, e in events(f):
+        if e['k'] in ('construct', 'initlist') and 'scope_guard' in (e.get('type') or ''):
+            for a in e.get('args', []):
+                m = re.match(r'<lambda@(\d+)>', (a.get('p') or '') if isinstance(a, dict) else '')
+                if m: sg_lines.add(int(m.group(1)))
+    for b, i, e in events(f):
+        if e['k'] != 'decl': continue
+        for v in e['vars']:
+            m = re.match(r'<lambda@(\d+)>', ((v.get('init') or {}).get('p') or ''))
+            if not m: continue
+            t = (v.get('type') or '') + ' ' + (v.get('wtype') or '')
+            if 'scope_guard' in t or int(m.group(1)) in sg_lines: out[v['var']] = int(m.group(1))
+    return out
